@@ -281,12 +281,16 @@ def _eterm_task(spec):
             eps = 1 / tier(inv_eps, comp, idx)
             e1, e0 = _at(E1, comp, idx), _at(E0, comp, idx)
             f = e1 + e0
-            loss = 0 if sigma is None else (cn * tier(sigma, comp, idx) * eta0 / 2) * _abs2(f)
+            coef = 0 if sigma is None else (cn * tier(sigma, comp, idx) * eta0 / 2)
+            loss = coef * _abs2(f)
             lhs = eps * (_abs2(e1) - _abs2(e0))
             rhs = cn * _cmul_re(f, y.curl_H(G, comp, idx)) - loss
             c.prove(f"E_energy_term[{comp}]", A.v_eq(lhs, rhs), extra_hyps=hyps)
             if sigma is not None:
-                c.prove(f"dissipation_sign[{comp}]", loss >= 0, extra_hyps=hyps)
+                # loss = coef * |F|^2 with |F|^2 = Re(F)^2 + Im(F)^2: proved for ARBITRARY reals in place of the
+                # (large) real and imaginary parts of F - a generalisation, which keeps the nonlinear query small
+                fr, fi = sym_real("F_re"), sym_real("F_im")
+                c.prove(f"dissipation_sign[{comp}]", coef * (fr * fr + fi * fi) >= 0, extra_hyps=hyps)
 
     return body
 
@@ -405,3 +409,92 @@ def tasks(tier_name, seed):
         out[f"lemma_product_rule/{lab}/complex"] = Task(_product_rule_task(spc))
         out[f"lemma_curl_linear/{lab}/complex"] = Task(_curl_linear_task(spc))
     return out
+
+
+# ---------------------------------------------------------------------------------------
+# replay on the real code
+# ---------------------------------------------------------------------------------------
+
+
+def replay(key, obligation, witness):
+    """curl/update contracts: the REAL pad_fields_for_boundaries + curl_E/curl_H resp. update_E/update_H under
+    real JAX (float64) on the witness' shape (random data, wall preconditions enforced) against the Yee
+    specification evaluated cell by cell on the same numbers.  The lemma_* tasks speak about the specification
+    only (no repository code is involved); a refuted lemma is a defect of the spec and has no real-code input."""
+    import itertools
+
+    import jax.numpy as jnp
+    import numpy as np
+
+    import fdtdx.core.physics.curl as C
+    import fdtdx.fdtd.update as U
+    from fdtdx.constants import c as c0
+    from fdtdx.constants import eta0
+    from fdtdx.fdtd.container import ObjectContainer
+
+    if not (key.startswith("curl/") or key.startswith("update/")):
+        return False, "lemma over the contracts (specification level): no repository code is executed in this obligation"
+    spec = K.parse_spec((witness or {}).get("notes"))
+    if not spec:
+        return False, "witness carries no configuration"
+    sc = dict((witness or {}).get("scalars") or {})
+    details = []
+    for attempt in range(3):
+        w = {"scalars": {k: v for k, v in sc.items() if k in ("Nx", "Ny", "Nz")}} if attempt == 0 else {"scalars": {"Nx": 2 + attempt, "Ny": 3, "Nz": 1 + attempt}}
+        if any(isinstance(v, int) and v > 6 for v in w["scalars"].values()):
+            w = {"scalars": {k: min(int(v), 6) for k, v in w["scalars"].items()}}
+        shape, cfg, objs, arrays, rng = K.concrete_scene(spec, w, seed=attempt)
+        oc = ObjectContainer(object_list=objs, volume_idx=0)
+        widths, ref = None, 1
+        if spec.get("nonuniform"):
+            widths = [A.asarray(np.asarray(cfg.resolved_grid.cell_widths(a))) for a in range(3)]
+            ref = float(c0 * cfg.time_step_duration / cfg.courant_number)
+        phases = {}
+        for o in objs:
+            if getattr(o, "needs_complex_fields", False):
+                sp = float(cfg.resolved_grid.min_spacing) if spec.get("nonuniform") else cfg.uniform_spacing()
+                phases[o.axis] = complex(np.asarray(o.get_bloch_phase(shape, sp)))
+        y = Yee(shape, spec["bnd"], widths=widths, ref=ref, phases=phases)
+        E, H = A.asarray(np.asarray(arrays.fields.E)), A.asarray(np.asarray(arrays.fields.H))
+
+        def num(v):
+            if isinstance(v, SymNum):
+                return complex(v.re, v.im) if v.im is not None else float(v.re)
+            return v
+
+        def cmp(name, got, fn):
+            got = np.asarray(got)
+            worst, where = 0.0, None
+            for comp in range(3):
+                for cell in itertools.product(*[range(n) for n in shape]):
+                    d = abs(got[(comp, *cell)] - num(fn(comp, cell)))
+                    if d > worst:
+                        worst, where = d, (comp, *cell)
+            scale = max(1.0, float(np.max(np.abs(got)))) if got.size else 1.0
+            details.append(f"attempt {attempt}: shape={tuple(shape)} {name}: max |real - spec| = {worst:.3e} at {where} (scale {scale:.2e})")
+            return worst > 1e-9 * scale
+
+        bad = False
+        if key.startswith("curl/"):
+            gotE, _ = C.curl_E(cfg, U.pad_fields_for_boundaries(arrays.fields.E, oc, cfg), {}, oc, True)
+            gotH, _ = C.curl_H(cfg, U.pad_fields_for_boundaries(arrays.fields.H, oc, cfg), {}, oc, True)
+            if obligation.startswith("curl_E"):
+                bad = cmp("curl_E", gotE, lambda comp, idx: y.curl_E(E, comp, idx))
+            else:
+                bad = cmp("curl_H", gotH, lambda comp, idx: y.curl_H(H, comp, idx))
+        else:
+            t = jnp.asarray(1, dtype=jnp.int32)
+            cn = float(cfg.courant_number)
+
+            def mat(X):
+                return X if X is None or not hasattr(X, "shape") or np.ndim(X) == 0 else A.asarray(np.asarray(X))
+
+            if obligation.startswith("update_E"):
+                got = U.update_E(t, arrays, oc, cfg, True).fields.E
+                bad = cmp("update_E", got, spec_update_E(y, cn, eta0, E, H, mat(arrays.inv_permittivities), mat(arrays.electric_conductivity)))
+            else:
+                got = U.update_H(t, arrays, oc, cfg, True).fields.H
+                bad = cmp("update_H", got, spec_update_H(y, cn, E, H, mat(arrays.inv_permeabilities)))
+        if bad:
+            return True, "\n".join(details)
+    return False, "\n".join(details)
